@@ -1,6 +1,6 @@
 (* C16 - prelude functions and macros compute what their documentation says.
    Only statements; proofs in Eval/PreludeProofs.v. *)
-From PL Require Import Eval.EvalRules Eval.PreludeState Eval.PreludeProofs Eval.CatchProofs Eval.MacroProofs2 Eval.LengthProofs Eval.RangeProofs Eval.FoldProofs Eval.MapProofs Eval.ZipProofs Eval.LastProofs Eval.InitProofs Eval.FoldrProofs.
+From PL Require Import Eval.EvalRules Eval.PreludeState Eval.PreludeProofs Eval.CatchProofs Eval.MacroProofs2 Eval.LengthProofs Eval.RangeProofs Eval.FoldProofs Eval.MapProofs Eval.ZipProofs Eval.LastProofs Eval.InitProofs Eval.FoldrProofs Eval.EnumerateProofs.
 From Coq Require Import ZArith.
 From Coq Require Import String.
 Local Open Scope string_scope.
@@ -141,3 +141,10 @@ Print Assumptions C16_apply_expansion.
 Theorem C16_throw_expansion : forall body, macro_expands_within 4 (s "throw") body (vec_to_list [vsym "signal"; VCons (vsym "list") (vec_to_list body)]).
 Proof. exact throw_expansion. Qed.
 Print Assumptions C16_throw_expansion.
+
+(* enumerate: every element paired with its index, for every list *)
+Theorem C16_enumerate : forall xs st d, in_i64 (Z.of_nat (List.length xs)) = true -> has_prelude st -> (d + 6 <= MAXD)%N ->
+  exists fuel st' r, eval_loop fuel st en_body (en_env (vec_to_list xs)) pm d = (st', ROk r) /\ has_prelude st' /\
+                     strip r = strip (vec_to_list (map pair_of (combine xs (indices (List.length xs))))).
+Proof. exact enumerate_runs. Qed.
+Print Assumptions C16_enumerate.
